@@ -342,6 +342,22 @@ def it_next(I, itp):
             if r.idx == 0: return r
             c = I.call_closure(Ptr(Cell(it), (1,)), tup(Ptr(Cell(r), (0,))))
             if I.W.branch(c): return r
+    if t == "FilterMap":
+        while True:
+            r = it_next(I, Ptr(Cell(it), (0,)))
+            if r.idx == 0: return r
+            o = I.call_closure(Ptr(Cell(it), (1,)), tup(r.f[0]))
+            if o.idx == 1: return o
+    if t == "FlatMap":
+        while True:
+            if it.f[2] is not None:
+                r = it_next(I, Ptr(Cell(it), (2,)))
+                if r.idx == 1: return r
+                it.f[2] = None
+            r = it_next(I, Ptr(Cell(it), (0,)))
+            if r.idx == 0: return r
+            inner = I.call_closure(Ptr(Cell(it), (1,)), tup(r.f[0]))
+            it.f[2] = Agg([VecObj(iter_to_list(I, inner)), 0], "ListIter")
     if t == "Enumerate":
         r = it_next(I, Ptr(Cell(it), (0,)))
         if r.idx == 0: return r
@@ -469,6 +485,9 @@ _adapt("peekable", lambda I, it: Agg([it, none()], "Peekable"))
 _adapt("chain", lambda I, it, o: Agg([it, o], "Chain"))
 _adapt("zip", lambda I, it, o: Agg([it, o], "Zip"))
 _adapt("by_ref", lambda I, it: it)
+_adapt("filter_map", lambda I, it, f: Agg([it, f], "FilterMap"))
+_adapt("flat_map", lambda I, it, f: Agg([it, f, None], "FlatMap"))
+_adapt("flatten", lambda I, it: Agg([it, PyClosure(lambda I2, x: x, "id"), None], "FlatMap"))
 
 
 def _find(I, itp, f):
@@ -1070,3 +1089,47 @@ def _(I, rp, xp):
 def _(I, rp, xp):
     r = I.deref(rp); x = I.deref(xp)
     return _and(I.binop("Le", r.f[0], x, "usize"), I.binop("Lt", x, r.f[1], "usize"))
+
+
+@summary("Option::ok_or_else")
+def _(I, o, f): return ok(o.f[0]) if o.idx == 1 else err(I.call_closure(f, Agg([], "tuple")))
+@summary("Option::zip")
+def _(I, a, b): return some(tup(a.f[0], b.f[0])) if a.idx == 1 and b.idx == 1 else none()
+@summary("Option::unwrap_unchecked")
+def _(I, o): return o.f[0]
+@summary("Result::unwrap_or_else")
+def _(I, r, f): return r.f[0] if r.idx == 0 else I.call_closure(f, tup(r.f[0]))
+@summary("Result::unwrap_or_default")
+def _(I, r):
+    if r.idx == 0: return r.f[0]
+    raise Unsupported("unwrap_or_default on Err")
+
+
+def _sort_by_key(I, s, f):
+    items = s.items()
+    keyed = [(I.call_closure(f, tup(Ptr(Cell(s.obj), (s.start + i,)))), x) for i, x in enumerate(items)]
+    out = []
+    for k, x in keyed:
+        j = len(out)
+        while j > 0 and I.cmp_generic(k, out[j - 1][0]) < 0: j -= 1
+        out.insert(j, (k, x))
+    s.obj.f[s.start:s.start + s.len] = [x for _, x in out]
+    return UNIT
+
+
+for _p in ("alloc::slice::<impl []>::", "slice::<impl []>::", "std::slice::<impl []>::", "core::slice::<impl []>::", "<impl []>::"):
+    S[_p + "sort_by_key"] = _sort_by_key
+    S[_p + "sort_unstable_by_key"] = _sort_by_key
+    S[_p + "sort"] = S["alloc::slice::<impl []>::sort"]
+    S[_p + "is_empty"] = S["core::slice::<impl []>::is_empty"]
+    S[_p + "len"] = S["core::slice::<impl []>::len"]
+    S[_p + "iter"] = S["core::slice::<impl []>::iter"]
+    S[_p + "contains"] = S["core::slice::<impl []>::contains"]
+    S[_p + "join"] = lambda I, s, sep: (_ for _ in ()).throw(Unsupported("slice::join"))
+
+
+@summary("Vec::append")
+def _(I, p, other):
+    o = vec_of(I, other)
+    vec_of(I, p).f.extend(o.f); o.f = []
+    return UNIT
